@@ -245,6 +245,12 @@ impl FreeVarsVisitor {
 }
 """
 
+import findings  # noqa: E402
+for _fn, _fi, _fb in findings.C20_EXTRACT:
+    BOUNDED.append({"name": _fn, "kind": "refactor-corpus", "props": ["C20"], "input": [_fi], "n_inputs": 1, "command": _CMD, "selections": "lines", "pure_selections": True,
+                    "bound": _fb + "; every result must print the same standard output and end with the same status as the original", "expect": {}})
+
+
 def build(tier):
     u = UnitFile("freevars")
     u.raw(common.HEADER)
